@@ -15,7 +15,8 @@ IMPORTS = "Require Import V.model.SvcArgs."
 THEOREMS = ["install_upgrade_equiv", "upgrade_keeps_definition", "upgrade_port_is_the_only_difference",
             "every_installed_flag_is_known", "interp_install_is_intended", "written_args_conflict_free",
             "builders_match_source", "network_id_reaches_protocol_strings", "lifecycle_keeps_settings",
-            "evm_subcommand_wins", "upgrade_installs_the_regenerated_definition"]
+            "evm_subcommand_wins", "upgrade_installs_the_regenerated_definition",
+            "testnet_never_queries_mainnet"]
 RULE = ("option combinations over 27 parameters (peers: first/local/addrs/urls/testnet/ignore-cache/cache dir; "
         "network id, home-network, log format, upnp, ip, node/metrics/rpc ports, metrics server, owner (incl. upper "
         "case), log-file limits, rewards address, EVM network incl. custom, auto-restart, environment, user, user "
@@ -46,8 +47,8 @@ ENV_CUSTOM = [["RPC_URL", "http://other.example:9999/"], ["PAYMENT_TOKEN_ADDRESS
               ["DATA_PAYMENTS_ADDRESS", "0x2222222222222222222222222222222222222222"], ["UNRELATED", "x"]]
 
 PARAMS = [
-    ("first", [False, True]), ("local", [False, True]), ("addrs", [[], [PEER_A], [PEER_A, PEER_B]]),
-    ("urls", [[], ["http://a.example/contacts"], ["http://a.example/c", "https://b.example/d?x=1"]]),
+    ("first", [False, True]), ("local", [False, True]), ("addrs", [[], [PEER_A], [PEER_A, PEER_B], [PEER_B]]),
+    ("urls", [[], ["http://a.example/contacts"], ["http://a.example/c", "http://b.example/d?x=1"]]),
     ("testnet", [False, True]), ("ignore_cache", [False, True]), ("cache_dir", [None, "$B/cache dir"]),
     ("network_id", [None, 5, 255]), ("home", [False, True]), ("log_format", [None, "json", "default"]),
     ("upnp", [False, True]), ("ip", [None, "10.0.0.1"]), ("node_port", [None, 12000]),
@@ -215,7 +216,7 @@ def model_term(c, o):
     # what the node reports it runs with == the model's protocol strings for this configuration
     for which in ("install", "upgrade"):
         r = (o.get("antnode") or {}).get(which)
-        if r and r["code"] == 0:
+        if r and "VERIF_EFFECTS" in r["dump"]:
             pr = protocol_report(r)
             if pr is None or pr["held_identify_protocol"] != pr["identify_protocol"]:
                 return "false"
@@ -225,6 +226,8 @@ def model_term(c, o):
             if ev is None:
                 return "false"
             t += " && agree_evm %s %s %s" % (c_cfg(c, o), c_env(o[which]["env"]), cstr(ev))
+            us, ms, _ = seen_sources(c, r)
+            t += " && agree_sources %s %d%%nat 0%%nat 5%%nat 100%%nat %s %s" % (c_cfg(c, o), usable_peers(c), cbool(us), cbool(ms))
     return t
 
 
@@ -303,6 +306,74 @@ def protocol_report(r):
         return None
     d = dict(re.findall(r'(\w+)="([^"]*)"', m.group(1)))
     return d if all(k in d for k in PROTO_KEYS) else None
+
+
+def strip_peers(d):
+    """the gathered initial peers arrive in fetch-completion order: not part of the parsed-options comparison"""
+    return re.sub(r"^VERIF_PEERS .*$", "", d, flags=re.M)
+
+
+def mainnet_hosts():
+    src = open(os.path.join(core.REPO, "ant-bootstrap/src/contacts.rs")).read()
+    m = re.search(r"const MAINNET_CONTACTS: &\[&str\] = &\[(.*?)\];", src, re.S)
+    return {re.sub(r"^https?://([^/:]+).*$", r"\1", u) for u in re.findall(r'"([^"]+)"', m.group(1))}
+
+
+MAINNET = None
+
+
+def usable_peers(c):
+    """--peer addresses that survive craft_valid_multiaddr: the ones carrying /p2p/<peer id>"""
+    return sum(1 for a in c["peers"]["addrs"] if "/p2p/" in a)
+
+
+def seen_sources(c, r):
+    global MAINNET
+    if MAINNET is None:
+        MAINNET = mainnet_hosts()
+    url_hosts = {re.sub(r"^https?://([^/:]+).*$", r"\1", u) for u in c["peers"]["urls"]}
+    hosts = []
+    for line in r.get("requests", []):
+        m = re.match(r"^(?:GET|HEAD|POST) https?://([^/: ]+)|^CONNECT ([^: ]+):", line)
+        hosts.append((m.group(1) or m.group(2)) if m else line)
+    return (any(h in url_hosts for h in hosts), any(h in MAINNET for h in hosts),
+            [h for h in hosts if h not in url_hosts and h not in MAINNET])
+
+
+def expect_no_peers(c):
+    p = c["peers"]
+    return not p["first"] and not p["local"] and usable_peers(c) == 0 and not p["urls"] and p["testnet"]
+
+
+def contacts(c, which, r):
+    """which contact endpoints the node queried for the written peers arguments (everything it fetches goes to the
+    harness's recording proxy)"""
+    p = c["peers"]
+    urls_seen, mainnet_seen, other = seen_sources(c, r)
+    out = []
+    if p["testnet"] and mainnet_seen:
+        out.append(("testnet-node-queries-mainnet", "%s-time arguments carry --testnet, yet the node queried the mainnet contacts: %s"
+                    % (which, [x for x in r["requests"]][:4])))
+    bad = []
+    quiet = p["first"] or p["local"]
+    if quiet and (urls_seen or mainnet_seen or other):
+        bad.append("a %s node queried %s" % ("genesis" if p["first"] else "local", r["requests"][:4]))
+    if other:
+        bad.append("unexpected requests to %s" % other[:4])
+    if not p["urls"] and urls_seen:
+        bad.append("a contacts URL was queried though none is configured")
+    if not quiet and p["urls"] and not urls_seen:
+        bad.append("the configured contacts URLs %s were not queried" % p["urls"])
+    if not quiet and not p["testnet"] and not mainnet_seen:
+        bad.append("a default (non --testnet) node did not query the mainnet contacts")
+    started = r["code"] == 0
+    if expect_no_peers(c) and started:
+        bad.append("nothing names a peer (--testnet, no usable --peer, no contacts URL) yet the node found initial peers")
+    if not expect_no_peers(c) and not started:
+        bad.append("the node gave up during start-up (exit %s): %s" % (r["code"], r["stderr"].strip().splitlines()[0][:200] if r["stderr"].strip() else ""))
+    if bad:
+        out.append(("contacts-not-as-configured", "%s-time arguments: %s" % (which, "; ".join(bad))))
+    return out
 
 
 def evm_report(r):
@@ -417,7 +488,7 @@ def oracle(c, o):
     if an:
         for which, port in (("install", c["node_port"]), ("upgrade", eff_port)):
             r = an[which]
-            if r["code"] != 0:
+            if "VERIF_EFFECTS" not in r["dump"]:
                 cls = "genesis-with-peers-refused" if (c["peers"]["first"] and (c["peers"]["addrs"] or c["peers"]["urls"])) else "antnode-refuses"
                 v.append((cls, "antnode exits %s on the %s-time arguments: %s" % (r["code"], which, r["stderr"].strip().splitlines()[0] if r["stderr"].strip() else "")))
                 continue
@@ -429,10 +500,11 @@ def oracle(c, o):
                 v.append(("misinterpreted", "antnode reads the %s-time arguments differently from the configuration: %s" % (which, bad)))
         for which in ("install", "upgrade"):
             r = an[which]
-            if r["code"] == 0:
+            if "VERIF_EFFECTS" in r["dump"]:
                 v += effects(c, o, which, r)
-        if an["install"]["code"] == 0 and an["upgrade"]["code"] == 0 and eff_port == c["node_port"] \
-                and an["install"]["dump"] != an["upgrade"]["dump"]:
+                v += contacts(c, which, r)
+        if "VERIF_EFFECTS" in an["install"]["dump"] and "VERIF_EFFECTS" in an["upgrade"]["dump"] and eff_port == c["node_port"] \
+                and strip_peers(an["install"]["dump"]) != strip_peers(an["upgrade"]["dump"]):
             v.append(("interpretations-differ", "antnode parses the install-time and upgrade-time arguments to different options"))
     seen, out = set(), []
     for cls, d in v:
